@@ -16,7 +16,7 @@ LEVEL_TEXT = ('Static decision of the structural necessary conditions of the con
               'both InsertDataItem implementations on a symbolic heap and their agreement; covering lookup predicate; '
               'append-once/count; iterator protocol; queue wiring (key/item order, max end, key = current '
               'characteristic; the wrapper drops an entry only against the queue\'s current lowest priority); lazy '
-              'invalidation loop; refill completeness and refill-before-pop of an empty queue; forwarding of Clear / IsEmpty; maxlen propagation.')
+              'invalidation loop; refill completeness and refill-before-pop of an empty queue; forwarding of Clear / IsEmpty; maxlen propagation; constructor parameters of a derived container forwarded to the base under their own names.')
 EXPLANATION = ('Path summaries (accessors and queue wrappers inlined, loops unrolled <= 2) of every public container '
                'operation are compared with the expected heap shape, guard literals and call arguments. The '
                'ordering and eviction behaviour of depq.DEPQ itself is the trusted base.')
@@ -513,7 +513,46 @@ def r19_8(ctx: Ctx):
                      key=f'{rid}::{i2.short}::no-queue')
 
 
+def r19_10(ctx: Ctx):
+    """Sibling agreement of the constructors: a container derived from SearchData hands its own constructor
+    arguments to the base constructor under the same names (the queue bound as the queue bound, the problem as the
+    problem) - otherwise the derived container's bounded queue is not bounded by what the caller asked for."""
+    rid = 'R19.10'
+    ctx.rule(rid, 'a subclass of SearchData forwards each of its constructor parameters to the base-class parameter of '
+                  'the same name')
+    base = ctx.ix.cls('SearchData')
+    binit = base.lookup('__init__')
+    n = 0
+    for c in base.all_subclasses():
+        init = c.methods.get('__init__')
+        if init is None or binit is None:
+            continue
+        bps = binit.param_names[1:]
+        for nd in ast.walk(init.node):
+            if not (isinstance(nd, ast.Call) and isinstance(nd.func, ast.Attribute) and nd.func.attr == '__init__'):
+                continue
+            sup = isinstance(nd.func.value, ast.Call) and isinstance(nd.func.value.func, ast.Name) and \
+                nd.func.value.func.id == 'super'
+            args = nd.args if sup else nd.args[1:]
+            if not sup and not (isinstance(nd.func.value, ast.Name) and nd.func.value.id == base.name):
+                continue
+            n += 1
+            bound = list(zip(bps, args)) + [(k.arg, k.value) for k in nd.keywords if k.arg]
+            for bp, a in bound:
+                if isinstance(a, ast.Name) and a.id in init.param_names and a.id in bps and a.id != bp:
+                    ctx.fail(rid, init.short, init.loc(nd),
+                             f'{init.short} passes its parameter {a.id} to the base constructor as {bp}: the derived '
+                             f'container is built with its arguments exchanged (the bound of its characteristic queue '
+                             f'is not the requested one)', key=f'{rid}::{init.short}::{a.id}->{bp}')
+    if not any(x.rule == rid for x in ctx.findings):
+        ctx.ok(rid, 'SearchData subclasses', f'{n} base-constructor calls: parameters forwarded under their own names',
+               base.module.relpath)
+    ctx.floor(rid, 'base-constructor calls in the subclasses of SearchData', n, 1)
+
+
 def check(ctx: Ctx):
+    if C.want(ctx, 'R19.10'):
+        r19_10(ctx)
     for rid, fn in (('R19.1', r19_1), ('R19.2', r19_2), ('R19.4', r19_4), ('R19.5', r19_5_7), ('R19.6', r19_6),
                     ('R19.8', r19_8), ('R19.9', r19_9)):
         if C.want(ctx, rid) or (rid == 'R19.5' and C.want(ctx, 'R19.7')) or (rid == 'R19.1' and C.want(ctx, 'R19.3')):
